@@ -156,7 +156,10 @@ static void runCase(const CaseIn& c) {
     double tval;
     if (c.target_default) {
         tpos = (region.lower + region.upper) / 2.0;
-        tval = q.averageDistanceValue();
+        // as the 2-argument solveBounded derives it (checked: `result4` must equal `result`,
+        // and the Lean model's defaultTargetValue must equal this bit for bit)
+        Peek<N> pk(q);
+        tval = (pk.AtA(N, N) != 0.0) ? (pk.AtBp(N, N) / pk.AtA(N, N)) : 0.0;
     } else {
         for (unsigned i = 0; i < N; ++i) tpos(i) = c.tpos[i];
         tval = c.tval;
@@ -244,7 +247,8 @@ int main(int argc, char** argv) {
             c.perms.push_back(pm);
         } else if (w[0] == "split") c.splits.push_back((unsigned)atoi(w[1].c_str()));
         else if (w[0] == "end") {
-            if (N == 1) runCase<1>(c);
+            if (N == 0) runCase<0>(c);
+            else if (N == 1) runCase<1>(c);
             else if (N == 2) runCase<2>(c);
             else if (N == 3) runCase<3>(c);
             else printf("case %s %u\nunsupported\nend\n", c.id.c_str(), N);
